@@ -59,7 +59,8 @@ def run(ctx):
     nd = [cc.layout_block(ad_, [c for c in gen_(tier, rng) if len(c["xs"]) in (4, 6, 8)], tier, rng)
           for ad_, gen_ in ((fns.GrossRange(), fns.gen_gross), (fns.ValidRange(), fns.gen_valid))]
     return adapters.merge(
-        [r1, r2] + [x for x in nd if x is not None],
+        [r1, r2] + [x for x in nd if x is not None]
+        + [cc.carrier_block(ad_, gen_(tier, rng), tier, rng) for ad_, gen_ in ((fns.GrossRange(), fns.gen_gross), (fns.ValidRange(), fns.gen_valid))],
         rule="per (fail span, suspect span | valid span x inclusivity): every alphabet value {bound, bound±1/64, far, "
              "missing} alone, all series of length<=3(4) over a 4-symbol sub-alphabet, random series up to length 30; "
              "spans nested/touching/equal/degenerate/reversed/not-contained/wrong arity; float and datetime64 inputs; whole-number data given as int list / int32 / int64 / float32 against limits "
